@@ -17,6 +17,7 @@
 Require Import FstV.Base FstV.Pack FstV.Node FstV.Registry FstV.Builder FstV.GraphSem FstV.Format
                FstV.CodecSpec FstV.Fst.
 Require Import FstV.proofs.BuilderInv FstV.proofs.BuilderProofs5.
+Require Import FstV.proofs.ReaderProofs FstV.proofs.StreamProofs.
 
 (* maps: keys strictly increasing *)
 Theorem build_map_correct :
@@ -56,7 +57,7 @@ Theorem build_set_correct :
 Proof.
   intros Hc Ht summer ty rows cols ks H1 H2 H3 H4 H5.
   destruct (build_set_correct_proof Hc Ht summer ty rows cols ks H1 H2 H3 H4 H5) as (bs & Hb & p & Hp).
-  exists bs, p. destruct Hp as (A1 & A2 & A3 & A4 & A5 & A6 & A7).
+  exists bs, p. destruct Hp as (A1 & A2 & A3 & A4 & A5 & A6 & A7 & _).
   repeat split; auto. rewrite A4. unfold len. rewrite map_length. reflexivity.
 Qed.
 
@@ -79,6 +80,161 @@ Proof.
   intros Hc Ht summer ty rows cols ops H1 H2 H3 H4 H5.
   destruct (build_ops_correct_proof Hc Ht summer ty rows cols ops H1 H2 H3 H4 H5) as (bs & Hb & p & Hp).
   exists bs, p. tauto.
+Qed.
+
+(* ---------- the strengthened forms: what the reader-side theorems need from a built file ----------
+   With g := the graph the format specification reads from the file:
+   * every element of the file is a byte;
+   * StreamProofs.fuel_ok g root: the unfolded graph has at most 1 + (total key bytes) nodes (every
+     node of a built file has a non-empty language, so each path from the root is a distinct
+     prefix of a key), hence the 2^64 iterations of the stream loops suffice;
+   * GraphSem.canonical_outputs g: below every transition the smallest residual value is 0
+     (find_common_prefix_and_set_output keeps on each transition the minimum of the values below
+     it); this needs the repaired `add` (a repeated add of the last key moves no outputs);
+   * the root address fits u64. *)
+Definition built_extras (bs : list N) (p : parsed) : Prop :=
+  let g := graph_of (node_table (p_nodes p)) in
+  Forall (fun x => x < 256) bs /\ fuel_ok g (p_root p) /\ canonical_outputs g /\ p_root p < 2 ^ 64.
+
+Theorem build_map_correct_full :
+  codec_statement -> compile_total_statement ->
+  forall (summer : list N -> N) (ty rows cols : N) (kvs : kmap),
+    kmap_ok kvs = true ->
+    Forall (fun kv => Forall (fun b => b < 256) (fst kv) /\ snd kv < U64) kvs ->
+    ty < U64 -> (forall l, summer l < 4294967296) ->
+    size_ok kvs ->
+    exists bs p,
+      build_map summer ty rows cols kvs = Ok bs /\
+      spec_parse bs = Some p /\
+      p_version p = 3 /\ p_ty p = ty /\ p_len p = len kvs /\ p_content p = kvs /\
+      p_checksum p = Some (summer (firstn (length bs - 4) bs)) /\
+      wf_fst_b bs = true /\
+      built_extras bs p.
+Proof.
+  intros Hc Ht summer ty rows cols kvs H1 H2 H3 H4 H5.
+  destruct (build_map_correct_proof Hc Ht summer ty rows cols kvs H1 H2 H3 H4 H5) as (bs & Hb & p & Hp).
+  exists bs, p. unfold built_extras. change (2 ^ 64) with U64. tauto.
+Qed.
+
+Theorem build_set_correct_full :
+  codec_statement -> compile_total_statement ->
+  forall (summer : list N -> N) (ty rows cols : N) (ks : list key),
+    sorted_weak ks = true ->
+    Forall (Forall (fun b => b < 256)) ks ->
+    ty < U64 -> (forall l, summer l < 4294967296) ->
+    size_ok_keys ks ->
+    exists bs p,
+      build_set summer ty rows cols ks = Ok bs /\
+      spec_parse bs = Some p /\
+      p_version p = 3 /\ p_ty p = ty /\ p_len p = len (dedup ks) /\
+      p_content p = map (fun k => (k, 0)) (dedup ks) /\
+      p_checksum p = Some (summer (firstn (length bs - 4) bs)) /\
+      wf_fst_b bs = true /\
+      built_extras bs p.
+Proof.
+  intros Hc Ht summer ty rows cols ks H1 H2 H3 H4 H5.
+  destruct (build_set_correct_proof Hc Ht summer ty rows cols ks H1 H2 H3 H4 H5) as (bs & Hb & p & Hp).
+  exists bs, p. destruct Hp as (A1 & A2 & A3 & A4 & A5 & A6 & A7 & A8).
+  unfold built_extras. change (2 ^ 64) with U64.
+  repeat split; try tauto. rewrite A4. unfold len. rewrite map_length. reflexivity.
+Qed.
+
+Theorem build_ops_correct_full :
+  codec_statement -> compile_total_statement ->
+  forall (summer : list N -> N) (ty rows cols : N) (ops : list op),
+    Forall (fun r => r = Ok tt) (spec_calls None ops) ->
+    Forall (fun o => Forall (fun b => b < 256) (op_key o) /\ op_val o < U64) ops ->
+    ty < U64 -> (forall l, summer l < 4294967296) ->
+    size_ok_ops ops ->
+    exists bs p,
+      build_ops summer ty rows cols ops = Ok bs /\
+      spec_parse bs = Some p /\
+      p_version p = 3 /\ p_ty p = ty /\ p_len p = len (spec_content None ops []) /\
+      p_content p = spec_content None ops [] /\
+      p_checksum p = Some (summer (firstn (length bs - 4) bs)) /\
+      wf_fst_b bs = true /\
+      built_extras bs p.
+Proof.
+  intros Hc Ht summer ty rows cols ops H1 H2 H3 H4 H5.
+  destruct (build_ops_correct_proof Hc Ht summer ty rows cols ops H1 H2 H3 H4 H5) as (bs & Hb & p & Hp).
+  exists bs, p. unfold built_extras. change (2 ^ 64) with U64. tauto.
+Qed.
+
+(* the three extras one by one, for the map front end (the names used by the end-to-end composition) *)
+Theorem build_map_bytes_ok :
+  codec_statement -> compile_total_statement ->
+  forall summer ty rows cols kvs, kmap_ok kvs = true ->
+    Forall (fun kv => Forall (fun b => b < 256) (fst kv) /\ snd kv < U64) kvs ->
+    ty < U64 -> (forall l, summer l < 4294967296) -> size_ok kvs ->
+    forall bs, build_map summer ty rows cols kvs = Ok bs -> Forall (fun x => x < 256) bs.
+Proof.
+  intros Hc Ht summer ty rows cols kvs H1 H2 H3 H4 H5 bs Hbs.
+  destruct (build_map_correct_full Hc Ht summer ty rows cols kvs H1 H2 H3 H4 H5) as (bs' & p & Hb & _ & _ & _ & _ & _ & _ & _ & Hx & _).
+  rewrite Hbs in Hb. inversion Hb; subst. exact Hx.
+Qed.
+
+Theorem build_map_fuel_ok :
+  codec_statement -> compile_total_statement ->
+  forall summer ty rows cols kvs, kmap_ok kvs = true ->
+    Forall (fun kv => Forall (fun b => b < 256) (fst kv) /\ snd kv < U64) kvs ->
+    ty < U64 -> (forall l, summer l < 4294967296) -> size_ok kvs ->
+    forall bs p, build_map summer ty rows cols kvs = Ok bs -> spec_parse bs = Some p ->
+      fuel_ok (graph_of (node_table (p_nodes p))) (p_root p).
+Proof.
+  intros Hc Ht summer ty rows cols kvs H1 H2 H3 H4 H5 bs p Hbs Hp.
+  destruct (build_map_correct_full Hc Ht summer ty rows cols kvs H1 H2 H3 H4 H5) as (bs' & p' & Hb & Hp' & _ & _ & _ & _ & _ & _ & _ & Hx & _).
+  rewrite Hbs in Hb. inversion Hb; subst. rewrite Hp in Hp'. inversion Hp'; subst. exact Hx.
+Qed.
+
+Theorem build_map_canonical :
+  codec_statement -> compile_total_statement ->
+  forall summer ty rows cols kvs, kmap_ok kvs = true ->
+    Forall (fun kv => Forall (fun b => b < 256) (fst kv) /\ snd kv < U64) kvs ->
+    ty < U64 -> (forall l, summer l < 4294967296) -> size_ok kvs ->
+    forall bs p, build_map summer ty rows cols kvs = Ok bs -> spec_parse bs = Some p ->
+      canonical_outputs (graph_of (node_table (p_nodes p))).
+Proof.
+  intros Hc Ht summer ty rows cols kvs H1 H2 H3 H4 H5 bs p Hbs Hp.
+  destruct (build_map_correct_full Hc Ht summer ty rows cols kvs H1 H2 H3 H4 H5) as (bs' & p' & Hb & Hp' & _ & _ & _ & _ & _ & _ & _ & _ & Hx & _).
+  rewrite Hbs in Hb. inversion Hb; subst. rewrite Hp in Hp'. inversion Hp'; subst. exact Hx.
+Qed.
+
+(* the same for arbitrary accepted call sequences (this is the form that was false before the
+   repair of `add`: insert("\x01",5); insert("\x02",7); add("\x02") gave get_key(5) = None) *)
+Theorem build_ops_canonical :
+  codec_statement -> compile_total_statement ->
+  forall summer ty rows cols ops,
+    Forall (fun r => r = Ok tt) (spec_calls None ops) ->
+    Forall (fun o => Forall (fun b => b < 256) (op_key o) /\ op_val o < U64) ops ->
+    ty < U64 -> (forall l, summer l < 4294967296) -> size_ok_ops ops ->
+    forall bs p, build_ops summer ty rows cols ops = Ok bs -> spec_parse bs = Some p ->
+      canonical_outputs (graph_of (node_table (p_nodes p))) /\
+      fuel_ok (graph_of (node_table (p_nodes p))) (p_root p) /\
+      Forall (fun x => x < 256) bs.
+Proof.
+  intros Hc Ht summer ty rows cols ops H1 H2 H3 H4 H5 bs p Hbs Hp.
+  destruct (build_ops_correct_full Hc Ht summer ty rows cols ops H1 H2 H3 H4 H5) as (bs' & p' & Hb & Hp' & _ & _ & _ & _ & _ & _ & Hb1 & Hb2 & Hb3 & _).
+  rewrite Hbs in Hb. inversion Hb; subst. rewrite Hp in Hp'. inversion Hp'; subst. auto.
+Qed.
+
+(* C16 from the builder side: a map whose values strictly increase in key order gives a file that
+   satisfies every builder-side premise of C16_get_key (canonical outputs, root < 2^64, and
+   values_increasing of the content, which is kvs itself); the remaining premises of C16
+   (wf_graph, views, the root exists, p_content p = L g root) come from parse_views_statement *)
+Theorem build_map_c16_ready :
+  codec_statement -> compile_total_statement ->
+  forall summer ty rows cols kvs, kmap_ok kvs = true ->
+    Forall (fun kv => Forall (fun b => b < 256) (fst kv) /\ snd kv < U64) kvs ->
+    ty < U64 -> (forall l, summer l < 4294967296) -> size_ok kvs ->
+    values_increasing kvs = true ->
+    exists bs p, build_map summer ty rows cols kvs = Ok bs /\ spec_parse bs = Some p /\
+      canonical_outputs (graph_of (node_table (p_nodes p))) /\ p_root p < 2 ^ 64 /\
+      values_increasing (p_content p) = true.
+Proof.
+  intros Hc Ht summer ty rows cols kvs H1 H2 H3 H4 H5 Hv.
+  destruct (build_map_correct_full Hc Ht summer ty rows cols kvs H1 H2 H3 H4 H5) as
+    (bs & p & Hb & Hp & _ & _ & _ & Hcont & _ & _ & _ & _ & Hx & Hr).
+  exists bs, p. rewrite Hcont. auto.
 Qed.
 
 (* non-vacuity: the hypotheses on the input are satisfiable and the conclusion is what the model
@@ -110,3 +266,11 @@ Check build_ops_correct.
 Print Assumptions build_map_correct.
 Print Assumptions build_set_correct.
 Print Assumptions build_ops_correct.
+Print Assumptions build_map_correct_full.
+Print Assumptions build_set_correct_full.
+Print Assumptions build_ops_correct_full.
+Print Assumptions build_map_bytes_ok.
+Print Assumptions build_map_fuel_ok.
+Print Assumptions build_map_canonical.
+Print Assumptions build_ops_canonical.
+Print Assumptions build_map_c16_ready.
